@@ -42,9 +42,11 @@ class B:
 
     def render(self, rich=True, **force):
         r = self.r
-        rd = {'form': r.choice(['mem', 'mem', 'json', 'yaml'])}
-        if self.world.get('no_json') and rd['form'] == 'json':
-            rd['form'] = 'yaml'
+        rd = {'form': r.choice(['mem', 'mem', 'json', 'yaml', 'multi_json', 'multi_yaml'])}
+        if self.world.get('no_json') and rd['form'] in ('json', 'multi_json'):
+            rd['form'] = 'yaml' if rd['form'] == 'json' else 'multi_yaml'
+        if rd['form'].startswith('multi') and r.random() < 0.4:
+            rd['main_part'] = False
         if rich:
             if r.random() < 0.5:
                 rd['perm'] = r.randint(1, 1000)
@@ -56,7 +58,7 @@ class B:
                 rd['name_suffix'] = r.choice(['_v2', '_x', 'Z'])
             if rd['form'] != 'mem':
                 rd['file_tag'] = r.choice(['t0', 't1', 'deep/dir'])
-                rd['ctx_form'] = r.choice(['dict', 'file', 'list'])
+                rd['ctx_form'] = r.choice(['dict', 'file', 'list', 'uses'])
                 if r.random() < 0.2:
                     rd['uses_placeholder'] = True
             if rd['form'] == 'mem':
@@ -97,6 +99,8 @@ class B:
         if ':' in it.slug and self.r.random() < 0.2:
             # address without group (unique: task names are globally unique)
             form = A.fullname(it.ns, it.cspec['name'])
+        if 'via' not in kw and self.r.random() < 0.25:
+            kw['via'] = self.r.choice(['attr', 'get', 'tasks'])
         return self.op(op='req', cid=cid, task=form, name=name, **kw)
 
     def new_proc_reset(self):
@@ -439,7 +443,7 @@ def gen_c07(r, knobs=None):
             elif t < 0.45:
                 ns = r.sample(names, min(len(names), r.choice([1, 1, 2, 3])))
                 b.op(op='cforce', cid=cid, tasks=ns, names=ns, recompute=r.random() < 0.45,
-                     delete=r.random() < 0.4 and b.delete_ok(cid, ns, live), single_as_str=r.random() < 0.5)
+                     delete=r.random() < 0.4 and b.delete_ok(cid, ns, live), single_as_str=r.random() < 0.5, as_objects=r.random() < 0.25)
             elif t < 0.8:
                 b.req(cid, r.choice(names))
             elif t < 0.92:
